@@ -179,6 +179,22 @@ def budget_atomiser(info, batch):
                     return ('G', True)
                 if op is ast.GtE:
                     return ('G', False)
+
+            def is_rest(x):         # info['m_max'] - info['m']
+                return isinstance(x, ast.BinOp) and \
+                    isinstance(x.op, ast.Sub) and \
+                    _is_sub(x.left, info, 'm_max') and \
+                    _is_sub(x.right, info, 'm')
+            if _len_arg(l) == batch and is_rest(r):
+                if op is ast.Gt:
+                    return ('G', True)
+                if op is ast.LtE:
+                    return ('G', False)
+            if _len_arg(r) == batch and is_rest(l):
+                if op is ast.Lt:
+                    return ('G', True)
+                if op is ast.GtE:
+                    return ('G', False)
         return None
     return atomise
 
@@ -354,6 +370,20 @@ def _check_wrapper(prog, rep, fn, opar, root_qual, family):
                    detail='dominated by the budget test on batch %s' % batch)
         elif ent is None:
             rep.unknown('P-budget', qual, construct, 'too many atoms')
+        elif mentions and not any(
+                isinstance(x, ast.Compare) and
+                any(_is_sub(y, info, 'm_max') for y in ast.walk(x)) and
+                any(_is_sub(y, info, 'm') for y in ast.walk(x)) and
+                any(_len_arg(y) for y in ast.walk(x))
+                for t, _ in gs for x in ast.walk(t)):
+            # a test on info['m_max'] dominates the call, but it is not
+            # written in a form whose meaning is decided here (a helper
+            # predicate, a temporary for the batch length, the budget kept
+            # as "what is left"): not a violation
+            rep.unknown('P-budget', qual, construct,
+                        'the dominating budget test is not in a recognised '
+                        'form (guards: %s)' % '; '.join(
+                            '%s is %s' % (ast.unparse(t), p) for t, p in gs))
         else:
             rep.violation('P-budget', qual, construct,
                           'the objective is called on batch %s although the '
@@ -416,8 +446,15 @@ def _check_wrapper(prog, rep, fn, opar, root_qual, family):
         return not paths.entails(gs_, atomise, lambda a: False)
     ps = [p for p in paths.paths(fn.node) if feasible(p)]
 
+    path_amount = {}
+
     def inc_amount(node):
-        return _len_arg(_norm(prog, fn, node.value))
+        got = _len_arg(_norm(prog, fn, node.value))
+        if got is None:
+            # the amount is a name bound on THIS path to len(<batch>) (a
+            # temporary that is re-used elsewhere in the function)
+            got = path_amount.get(id(node))
+        return got
     for path in ps:
         called = None      # (batch, result var, stmt)
         none_branch = None
@@ -425,7 +462,20 @@ def _check_wrapper(prog, rep, fn, opar, root_qual, family):
         empty_batches = set()
         tests = []
         escaped = False
+        last_len = {}
         for ev in path:
+            if ev.kind == 'stmt' and isinstance(ev.node, ast.Assign) and \
+                    len(ev.node.targets) == 1 and \
+                    isinstance(ev.node.targets[0], ast.Name):
+                ln_ = _len_arg(ev.node.value)
+                if ln_:
+                    last_len[ev.node.targets[0].id] = ln_
+                else:
+                    last_len.pop(ev.node.targets[0].id, None)
+            if ev.kind == 'stmt' and isinstance(ev.node, ast.AugAssign) and \
+                    isinstance(ev.node.value, ast.Name) and \
+                    ev.node.value.id in last_len:
+                path_amount[id(ev.node)] = last_len[ev.node.value.id]
             if ev.kind == 'stmt':
                 for c in paths.calls_in(ev.node):
                     if c in escapes:
@@ -561,9 +611,54 @@ def _check_wrapper(prog, rep, fn, opar, root_qual, family):
     else:
         # a comprehension that builds the new batch without the filter is the
         # violation; no recognisable construction at all is not decided
-        built = [c for c in comps if not c[2]]
+        # (only the comprehension that builds the batch HANDED ON counts: a
+        # key table over the whole batch is not the request; a filter through
+        # a set of absent keys -- itself filtered by "not in cache" -- is the
+        # same filter in two steps)
+        handed = set()
+        for c_ in ast.walk(fn.node):
+            if isinstance(c_, ast.Call) and c_.args:
+                for a_ in c_.args[:2]:
+                    if isinstance(a_, ast.Name) and a_.id != batch_param:
+                        handed.add(a_.id)
+
+        def _defs(nm):
+            return [n_.value for n_ in ast.walk(fn.node)
+                    if isinstance(n_, ast.Assign) and
+                    isinstance(n_.targets[0], ast.Name) and
+                    n_.targets[0].id == nm]
+        absent_sets = {n_.targets[0].id for n_ in ast.walk(fn.node)
+                       if isinstance(n_, ast.Assign) and
+                       isinstance(n_.targets[0], ast.Name) and
+                       isinstance(n_.value, (ast.SetComp, ast.ListComp,
+                                             ast.DictComp)) and
+                       any(isinstance(c2, ast.Compare) and
+                           isinstance(c2.ops[0], ast.NotIn) and
+                           isinstance(c2.comparators[0], ast.Name) and
+                           c2.comparators[0].id == 'cache'
+                           for g2 in n_.value.generators for f2 in g2.ifs
+                           for c2 in ast.walk(f2))}
+        two_step = False
+        unfiltered = []
+        for c in comps:
+            node_ = c[0]
+            owner = [nm for nm in handed if any(
+                node_ in list(ast.walk(v_)) for v_ in _defs(nm))]
+            if not owner:
+                continue
+            ifs_ = node_.generators[0].ifs
+            if any(isinstance(c2, ast.Compare) and
+                   isinstance(c2.ops[0], ast.In) and
+                   isinstance(c2.comparators[0], ast.Name) and
+                   c2.comparators[0].id in absent_sets
+                   for f2 in ifs_ for c2 in ast.walk(f2)):
+                two_step = True
+            elif not ifs_:
+                unfiltered.append(c)
+        built = [c for c in unfiltered if not c[2]]
         rep.add('P-cache-filter', qual, 'I_new = [i for i in I if ... '
-                'not in cache]', 'violation' if built else 'unknown',
+                'not in cache]', 'ok' if two_step else (
+                    'violation' if built else 'unknown'),
                 'the cached branch no longer restricts the batch to '
                 'indices that are not in the cache',
                 line=fn.node.lineno, file=mod.path)
@@ -846,6 +941,12 @@ def check_stop_writers(prog, rep, functions=None):
         if lits == ['e_vld', 'e', 'nswp']:
             rep.ok('P-stop-priority', 'utils._info_appr',
                    'e_vld > e > nswp')
+        elif sorted(lits) != sorted(['e_vld', 'e', 'nswp']):
+            # some reasons are written through a table / a loop: the order
+            # of the literal writers alone does not decide the priority
+            rep.unknown('P-stop-priority', 'utils._info_appr',
+                        'order of stop criteria: %s' % ' > '.join(lits),
+                        'not all three criteria are literal writers')
         else:
             rep.violation('P-stop-priority', 'utils._info_appr',
                           'order of stop criteria: %s' % ' > '.join(lits),
@@ -943,6 +1044,16 @@ def _stop_guard(mod, fn, st, v, gs, pred, lit):
                       r.value is True)
         keep = isinstance(v, ast.BoolOp) and isinstance(v.op, ast.Or) and \
             any(_is_sub(x, 'info', 'stop') for x in v.values[:-1])
+        # the same thing as a guard:  if ... and not info['stop']: ... = 'cb'
+        keep = keep or _stop_is_none(gs) or any(
+            _is_sub(t_, 'info', 'stop') and pol_ is False
+            for t_, pol_ in guard_atoms(gs))
+        # the callback test may be spelt  cb(...) is True  or, for a callback
+        # documented to return True / None, just  cb(...)
+        cb_ok = cb_ok or any(
+            pol_ and isinstance(t_, ast.Call) and
+            isinstance(t_.func, ast.Name) and t_.func.id == 'cb'
+            for t_, pol_ in guard_atoms(gs))
         return cb_ok and keep, 'under  cb(...) is True, keeping an earlier ' \
             'reason (info["stop"] or "cb")'
     if pred.startswith('thr:'):
